@@ -57,7 +57,8 @@ func genC15(t *rapid.T) C15Case {
 	if !c.All {
 		switch c.Cmd {
 		case "format", "format-check":
-			c.Target = rapid.SampledFrom([]string{"932100", "932100.ra", "932110-chain1", "shared"}).Draw(t, "target")
+			// rule arguments, include names, and names that are neither (other extensions, paths that leave the include directory)
+			c.Target = rapid.SampledFrom([]string{"932100", "932100.ra", "932110-chain1", "shared", "shared", "notes.txt", "data.raw", "../../rules/REQUEST-932-APPLICATION-ATTACK-RCE.conf", "../../../outside/notes.conf", "../../crs-setup.conf.example"}).Draw(t, "target")
 		case "renumber", "renumber-check":
 			c.Target = rapid.SampledFrom([]string{"932100", "932100.yaml", "932110", "932120", "932120.json", "932130", "932140"}).Draw(t, "target")
 		default:
@@ -174,6 +175,9 @@ func checkC15(c C15Case) Outcome {
 	if c.RootSel == "inner" {
 		sel = rootName + "/vendor/inner"
 	}
+	// files in the include directory that are no assembly files
+	tree[sel+"/regex-assembly/include/notes.txt"] = decoyContent("regex-assembly/")
+	tree[sel+"/regex-assembly/include/data.raw"] = decoyContent("regex-assembly/")
 	for _, d := range c.Decoys {
 		if strings.HasSuffix(d, "/") {
 			tree[sel+"/"+d] = ""
